@@ -114,7 +114,46 @@ def run(R):
         if pref != want:
             bad.append(("[--enable-hashes=%s] P" % he, "crypt_preferred_method is %s, the strongest enabled default-capable method gives %s" % (pref, want), il[pi]))
         shutil.rmtree(d, ignore_errors=True)
-    R.cov["evaluations"] = nconf * len(base)
+    # the Lean model of the generator (`mkTable`, `mkDefault`: what `C19_all_configs` is a theorem about) against the tree's own
+    # gen-crypt-hashes-h, without compiling anything: singletons, leave-one-out sets, the named groups and random subsets in the quick tier,
+    # ALL 65 536 subsets in the thorough tier; table rows (prefix, length, crypt entry, gensalt entry, nrbytes, strong flag, order) and default
+    import re, concurrent.futures
+    script = os.path.join(cbuild.REPO, "build-aux/scripts/gen-crypt-hashes-h"); conf = os.path.join(cbuild.REPO, "lib/hashes.conf")
+    if R.tier == "quick":
+        subsets = [[m] for m in ALL] + [[x for x in ALL if x != m] for m in ALL] + list(GROUPS.values()) + [ALL]
+        for _ in range(1500): subsets.append([m for m in ALL if R.rng.random() < R.rng.choice([0.15, 0.5, 0.85])])
+        subsets = [x for x in subsets if x]
+    else:
+        subsets = [[m for i, m in enumerate(ALL) if n >> i & 1] for n in range(1, 1 << len(ALL))]
+    def gen_one(sel):
+        r = subprocess.run(["perl", script, conf, "," + ",".join(sorted(sel)) + ","], text=True, capture_output=True, env=dict(os.environ, LC_ALL="C"))
+        if r.returncode != 0: return "ERR " + r.stderr[-200:]
+        rows = []
+        for pfx, plen, cr, gs, nrb, strong in re.findall(r'\{ "([^"]*)",\s*(\d+), crypt_(\w+)_rn,\s*gensalt_(\w+)_rn,\s*(\d+),\s*(\d+)\}', r.stdout):
+            rows.append("%s,%s,%s,%s,%s,%s" % (hx(pfx.encode()) if pfx else ".", plen, cr, gs, nrb, strong))
+        m = re.search(r'#define HASH_ALGORITHM_DEFAULT "([^"]*)"', r.stdout)
+        return "tbl=" + ";".join(rows) + " default=" + (hx(m.group(1).encode()) if m else "NULL")
+    with concurrent.futures.ThreadPoolExecutor(16) as ex:
+        real = list(ex.map(gen_one, subsets))
+    mops = []
+    for sel in subsets: mops += ["CFG " + ",".join(sel), "TBL"]
+    mout = subprocess.run([drv], input="\n".join(mops) + "\n", text=True, capture_output=True).stdout.splitlines()[1::2]
+    ngen = 0
+    for sel, a, b in zip(subsets, real, mout):
+        ngen += 1
+        if a != b:
+            diffs.append(("[gen-crypt-hashes-h --enable-hashes=%s]" % ",".join(sorted(sel)), "the tree's generator and its Lean model (mkTable/mkDefault) disagree: %s vs %s" % (a[:300], b[:300])))
+            # the property, stated on the generator's output itself: default = first enabled default-capable method, rows = exactly the enabled methods
+            cand = [m for m in ("yescrypt", "bcrypt", "sha512crypt") if m in sel]
+            want = hx(PREFIXES[cand[0]]) if cand else "NULL"
+            got = a.split(" default=")[-1]
+            names = sorted(x.split(",")[2] for x in a[4:].split(" default=")[0].split(";") if x)
+            if got != want:
+                bad.append(("[--enable-hashes=%s] gen-crypt-hashes-h" % ",".join(sorted(sel)), "HASH_ALGORITHM_DEFAULT is %s; the strongest enabled default-capable method gives %s" % (got, want), a[:300]))
+            elif names != sorted(sel):
+                bad.append(("[--enable-hashes=%s] gen-crypt-hashes-h" % ",".join(sorted(sel)), "the generated dispatch table holds %s, enabled are %s" % (names, sorted(sel)), a[:300]))
+    R.cov["generator_configurations_compared"] = ngen
+    R.cov["evaluations"] = nconf * len(base) + ngen
     R.cov["distinct_nontrivial"] = nconf
     R.cov["configurations_built"] = nconf
     R.cov["rule"] = ("real builds (the tree's perl generators + gcc on lib/*.c in a scratch directory) of %d configurations: all, strong, singletons, leave-one-out, "
